@@ -214,6 +214,95 @@ def rule_K2(run: Run, prog: Program) -> int:
     return n
 
 
+def _ctor_validates_tensor_args(prog: Program) -> bool | None:
+    """Tensor.__init__: is _validate_tensor() called on the path that copies another Tensor (before its early return)?"""
+    init = prog.lookup(prog.cls("Tensor"), "__init__")
+    if init is None:
+        return None
+    for st in walk_no_nested(init.node):
+        if isinstance(st, ast.If) and "isinstance(args[0], Tensor)" in ast.unparse(st.test):
+            has_return = any(isinstance(x, ast.Return) for x in st.body)
+            validates = any(isinstance(x, ast.Expr) and "_validate_tensor" in ast.unparse(x) for x in st.body)
+            if has_return:
+                return validates
+            return True
+    # no separate path for tensor arguments: the common tail validates if it calls _validate_tensor at all
+    return "_validate_tensor()" in ast.unparse(init.node)
+
+
+def _classmethod_falls_back(prog: Program, name: str) -> bool:
+    """TensorCollection.<name> catches IncompatibleShapeError around cls(...) and falls back to the element class."""
+    f = prog.lookup(prog.cls("TensorCollection"), name)
+    if f is None:
+        return False
+    for st in walk_no_nested(f.node):
+        if isinstance(st, ast.Try) and any(h.type is not None and "IncompatibleShapeError" in ast.unparse(h.type) for h in st.handlers):
+            return True
+    return False
+
+
+def rule_K2e(run: Run, prog: Program) -> int:
+    run.rule(
+        "E6.K2e",
+        "integer indexing can produce the ELEMENT class: from_array(x) reaches the element class only through the "
+        "IncompatibleShapeError raised by constructor validation (which the Tensor-argument path of Tensor.__init__ must not skip); "
+        "from_tensor(x) only when the element has no free index or it falls back on IncompatibleShapeError as well",
+    )
+    validates = _ctor_validates_tensor_args(prog)
+    fb_array = _classmethod_falls_back(prog, "from_array")
+    fb_tensor = _classmethod_falls_back(prog, "from_tensor")
+    bound = prog.find_cls("BoundTensor")
+    n = 0
+    for c in collection_classes(prog):
+        owner, elem, _ = _element_class(prog, c)
+        fam = _first_base(prog, c)
+        gi = prog.lookup(c, "__getitem__")
+        if elem is None or fam is None or gi is None or gi.cls.name in ("Tensor", "TensorCollection"):
+            continue
+        calls = [(v, k, f) for v, k, f in _rewrap_calls(prog, gi) if prog.is_subclass(k, fam)]
+        elem_bound = bound is not None and prog.is_subclass(elem, bound)
+        verdicts = []
+        direct_elem = any(prog.is_subclass(k, elem) for _v, k, _f in calls if not (isinstance(_v.func, ast.Attribute) and _v.func.attr in REWRAP_METHODS))
+        for v, k, f in calls:
+            if not (isinstance(v.func, ast.Attribute) and v.func.attr in REWRAP_METHODS):
+                continue
+            if not prog.is_subclass(k, prog.cls("TensorCollection")):
+                continue
+            n += 1
+            how = v.func.attr
+            arg = v.args[0] if v.args else None
+            arg_is_tensor = True
+            if isinstance(arg, ast.Attribute) and arg.attr == "array":
+                arg_is_tensor = False
+            if isinstance(arg, ast.Call):
+                t = prog.resolve_expr_name(f.module, arg.func, f) or ""
+                if t.startswith("numpy."):
+                    arg_is_tensor = False
+            if validates is None:
+                verdicts.append((UNDECIDED, "Tensor.__init__ not found"))
+            elif how == "from_array":
+                if fb_array and (validates or not arg_is_tensor):
+                    verdicts.append((PROVEN, f"{k.name}.from_array falls back to {elem.name} through constructor validation"))
+                else:
+                    verdicts.append((VIOLATION,
+                                     f"{f.short} re-wraps with {k.name}.from_array(<tensor>): the fall-back to {elem.name} needs the "
+                                     f"IncompatibleShapeError of constructor validation, but Tensor.__init__ returns before _validate_tensor() "
+                                     f"when its argument is a Tensor - {c.name}[i] is a {k.name} without free index, not a {elem.name}"))
+            else:
+                if elem_bound or (fb_tensor and validates):
+                    verdicts.append((PROVEN, f"{k.name}.from_tensor selects {elem.name} for a single element"))
+                else:
+                    verdicts.append((VIOLATION,
+                                     f"{f.short} re-wraps with {k.name}.from_tensor(<tensor>): a single {elem.name} still has free (vertex) "
+                                     f"indices, so from_tensor builds a {k.name}; its shape validation is skipped for Tensor arguments - "
+                                     f"{c.name}[i] and iteration yield {k.name} objects, not {elem.name}"))
+        if not verdicts:
+            continue
+        worst = max(verdicts, key=lambda x: {VIOLATION: 3, UNDECIDED: 2, PROVEN: 1}[x[0]])
+        run.add("E6.K2e", c.name, "element class of c[i]", worst[0], worst[1], gi.loc)
+    return n
+
+
 # ------------------------------------------------------------------------------------------------ K3
 NDARRAY_PARAMS = {"dtype", "copy", "order", "subok", "ndmin", "like"}
 
@@ -432,6 +521,9 @@ def rule_K3(run: Run, prog: Program, only: set[str] | None = None, family: Class
 
 
 # ------------------------------------------------------------------------------------------------ K4
+MEMO_ATTRS: set = set()
+
+
 def derived_cache_attrs(prog: Program) -> list[tuple[ClassInfo, str]]:
     """(class, attr): attr is annotated at class level with a package tensor class and assigned in that class's __init__."""
     out = []
@@ -451,7 +543,28 @@ def derived_cache_attrs(prog: Program) -> list[tuple[ClassInfo, str]]:
                         for t in st.targets)):
                     out.append((c, a))
                     break
-    return sorted(out, key=lambda x: (x[0].qualname, x[1]))
+    # memoised properties store their value in the instance __dict__, which Tensor.copy() shares with every shallow copy
+    for c in prog.classes.values():
+        if not prog.is_subclass(c, tensor):
+            continue
+        for name, f in c.methods.items():
+            if any(d in ("cached_property",) for d in f.decorators):
+                out.append((c, name))
+    for c in prog.classes.values():
+        if not prog.is_subclass(c, tensor):
+            continue
+        for name, f in c.methods.items():
+            if name in ("__init__", "__new__") or not f.params() or f.is_staticmethod or f.is_classmethod:
+                continue
+            selfn = f.params()[0].arg
+            for st in walk_no_nested(f.node):
+                if isinstance(st, ast.Assign):
+                    for t in st.targets:
+                        if isinstance(t, ast.Attribute) and isinstance(t.value, ast.Name) and t.value.id == selfn and t.attr not in ("array",):
+                            out.append((c, t.attr))
+                            MEMO_ATTRS.add((c.qualname, t.attr))
+    uniq = {(c.qualname, a): (c, a) for c, a in out}
+    return [uniq[k] for k in sorted(uniq)]
 
 
 def _returned_names(fn: FunctionInfo) -> set[str]:
@@ -545,8 +658,15 @@ def rule_K4(run: Run, prog: Program) -> int:
                         ok = True
                     break
                 cur = prog.lookup_after(s, cur.cls, "__apply__")
+            memo = (a in k.methods and "cached_property" in k.methods[a].decorators) or (k.qualname, a) in MEMO_ATTRS
             if ok:
                 run.add("E6.K4", s.name, f"__apply__ moves {a}", PROVEN, f"{ap.short} chain re-assigns {a} on the result", ap.loc)
+            elif memo:
+                run.add("E6.K4", s.name, f"__apply__ moves {a}", VIOLATION,
+                        f"{k.name}.{a} is memoised on the instance (cached_property / attribute stored by a query): the value lives in the "
+                        f"instance __dict__, which {ap.short} hands on to the transformed object through self.copy() without resetting it - "
+                        f"after `{a}` was computed once, t * x keeps the {a} of the ORIGINAL x (stale answer to every later query that uses it)",
+                        k.methods[a].loc if a in k.methods else k.loc)
             else:
                 run.add("E6.K4", s.name, f"__apply__ moves {a}", VIOLATION,
                         f"{s.name}.__apply__ resolves to {ap.short}, which does not re-assign the cached `{a}` (derived from the vertices in "
